@@ -36,8 +36,9 @@ CONSTANTS DEV_CountUnwritten,    \* writeHeader reports one line for a field wit
           DEV_SkipUnsigned       \* WriteToSkipMiddleware renders without the signing pass and without the reset
                                  \* (the code before fix c30a985; see DESIGN.md 11.2)
 
-VARIABLES hc, buf, signedc, emitted, bcache, gen, sigparts, inprog, rn, hx, phase
-svars == <<prog, pc, hc, buf, signedc, emitted, bcache, gen, sigparts, inprog, rn, hx, phase>>
+VARIABLES hc, buf, signedc, emitted, bcache, gen, sigparts, inprog, rn, hx, phase,
+          extra      \* body parts added to the message between two renders (AddAlternative...)
+svars == <<prog, pc, hc, buf, signedc, emitted, bcache, gen, sigparts, inprog, rn, hx, phase, extra>>
 
 P == prog.prog
 Ops == prog.ops
@@ -56,13 +57,13 @@ Fields == Fixed \o [i \in 1..Len(P.hdrs) |-> FieldOf(P.hdrs[i])]
 HLines(i) == [j \in 1..Fields[i].w |-> <<"H", i, j>>]
 
 (* ---- the entity ---- *)
-NLeaves == NP + NE + NA
+NLeaves == NP + extra + NE + NA
 LongLeafHeader ==
   \/ \E i \in DOMAIN P.parts : ~P.parts[i].del /\ P.parts[i].desc \in LongVals
   \/ \E i \in DOMAIN P.embeds : P.embeds[i].desc \in LongVals \/ P.embeds[i].name \in LongVals
   \/ \E i \in DOMAIN P.atts : P.atts[i].desc \in LongVals \/ P.atts[i].name \in LongVals
 (* the body parts the structure functions see: the signature part is ignored by design *)
-SeenParts == NP + (IF DEV_CountSignaturePart THEN sigparts ELSE 0)
+SeenParts == NP + extra + (IF DEV_CountSignaturePart THEN sigparts ELSE 0)
 Toks == ExpectedToks(SeenParts, NE, NA)
 Rank0(t) == t \in {"(mixed", "(related", "(alternative"}
 (* nesting depth of the i-th token inside the entity (0 = outermost) *)
@@ -85,9 +86,20 @@ CacheAfter(d, bc, g) ==
 SInit == /\ Init /\ prog.prog.smime.key # ""
          /\ hc = 0 /\ buf = <<>> /\ signedc = <<>> /\ emitted = <<>> /\ gen = 1 /\ sigparts = 0
          /\ bcache = [t \in {"(mixed", "(related", "(alternative"} |-> 0]
-         /\ inprog = FALSE /\ rn = 1 /\ hx = 1 /\ phase = "idle"
+         /\ inprog = FALSE /\ rn = 1 /\ hx = 1 /\ phase = "idle" /\ extra = 0
 
 Frame(vs) == UNCHANGED vs
+
+(* the caller changes the message between two renders: another body part. The signature part of the previous render *)
+(* is not a body part and is dropped by the next SignBegin wherever it sits in the list. (Placeholders keep the     *)
+(* indices of signedc / emitted equal to the indices of the operations.)                                             *)
+MutOps == {"AddAlt"}
+Mutate ==
+  /\ pc = "built" /\ phase = "idle" /\ rn <= Len(Ops) /\ Ops[rn] \in MutOps
+  /\ extra' = extra + 1
+  /\ signedc' = Append(signedc, <<>>) /\ emitted' = Append(emitted, <<<<"failed", 0, 0>>>>)
+  /\ rn' = rn + 1 /\ pc' = IF rn = Len(Ops) THEN "done" ELSE pc
+  /\ UNCHANGED <<prog, hc, buf, bcache, gen, sigparts, inprog, hx, phase>>
 
 Skipping == DEV_SkipUnsigned /\ rn <= Len(Ops) /\ Ops[rn] = "SkipMw"
 
@@ -96,37 +108,37 @@ SkipBegin ==
   /\ pc = "built" /\ phase = "idle" /\ rn <= Len(Ops) /\ Skipping
   /\ signedc' = Append(signedc, IF signedc = <<>> THEN <<<<"unsigned", 0, 0>>>> ELSE signedc[Len(signedc)])
   /\ phase' = "fin" /\ hx' = 1
-  /\ UNCHANGED <<prog, pc, hc, buf, emitted, bcache, gen, sigparts, inprog, rn>>
+  /\ UNCHANGED <<prog, pc, hc, buf, emitted, bcache, gen, sigparts, inprog, rn, extra>>
 
 SignBegin ==
-  /\ pc = "built" /\ phase = "idle" /\ rn <= Len(Ops) /\ ~Skipping
+  /\ pc = "built" /\ phase = "idle" /\ rn <= Len(Ops) /\ ~Skipping /\ Ops[rn] \notin MutOps
   /\ phase' = "pre" /\ inprog' = TRUE /\ buf' = <<>> /\ hx' = 1
   /\ sigparts' = 0
-  /\ UNCHANGED <<prog, pc, hc, signedc, emitted, bcache, gen, rn>>
+  /\ UNCHANGED <<prog, pc, hc, signedc, emitted, bcache, gen, rn, extra>>
 
 PreHeader ==
   /\ phase = "pre" /\ hx <= Len(Fields)
   /\ buf' = buf \o HLines(hx) /\ hc' = hc + Fields[hx].c /\ hx' = hx + 1
-  /\ UNCHANGED <<prog, pc, signedc, emitted, bcache, gen, sigparts, inprog, rn, phase>>
+  /\ UNCHANGED <<prog, pc, signedc, emitted, bcache, gen, sigparts, inprog, rn, phase, extra>>
 
 PreEntity ==
   /\ phase = "pre" /\ hx > Len(Fields)
   /\ buf' = buf \o EntityLines(0, bcache, gen)
   /\ bcache' = CacheAfter(0, bcache, gen) /\ gen' = gen + 1
   /\ phase' = "cut"
-  /\ UNCHANGED <<prog, pc, hc, signedc, emitted, sigparts, inprog, rn, hx>>
+  /\ UNCHANGED <<prog, pc, hc, signedc, emitted, sigparts, inprog, rn, hx, extra>>
 
 (* skip headerCount lines; if the buffer is shorter the render fails *)
 Cut ==
   /\ phase = "cut"
   /\ signedc' = Append(signedc, IF hc <= Len(buf) THEN SubSeq(buf, hc + 1, Len(buf)) ELSE <<<<"error", 0, 0>>>>)
   /\ sigparts' = 1 /\ inprog' = FALSE /\ phase' = "fin" /\ hx' = 1
-  /\ UNCHANGED <<prog, pc, hc, buf, emitted, bcache, gen, rn>>
+  /\ UNCHANGED <<prog, pc, hc, buf, emitted, bcache, gen, rn, extra>>
 
 FinHeader ==
   /\ phase = "fin" /\ hx <= Len(Fields)
   /\ hc' = hc + Fields[hx].c /\ hx' = hx + 1
-  /\ UNCHANGED <<prog, pc, buf, signedc, emitted, bcache, gen, sigparts, inprog, rn, phase>>
+  /\ UNCHANGED <<prog, pc, buf, signedc, emitted, bcache, gen, sigparts, inprog, rn, phase, extra>>
 
 FinEntity ==
   /\ phase = "fin" /\ hx > Len(Fields)
@@ -135,16 +147,16 @@ FinEntity ==
      ELSE /\ emitted' = Append(emitted, EntityLines(1, bcache, gen))
           /\ bcache' = CacheAfter(1, bcache, gen) /\ gen' = gen + 1
   /\ phase' = "reset"
-  /\ UNCHANGED <<prog, pc, hc, buf, signedc, sigparts, inprog, rn, hx>>
+  /\ UNCHANGED <<prog, pc, hc, buf, signedc, sigparts, inprog, rn, hx, extra>>
 
 Reset ==
   /\ phase = "reset"
   /\ hc' = IF DEV_NoReset \/ (DEV_NoResetOnError /\ Ops[rn] \in FailOps) \/ Skipping THEN hc ELSE 0
   /\ rn' = rn + 1 /\ phase' = "idle"
   /\ pc' = IF rn = Len(Ops) THEN "done" ELSE pc
-  /\ UNCHANGED <<prog, buf, signedc, emitted, bcache, gen, sigparts, inprog, hx>>
+  /\ UNCHANGED <<prog, buf, signedc, emitted, bcache, gen, sigparts, inprog, hx, extra>>
 
-SNext == SignBegin \/ SkipBegin \/ PreHeader \/ PreEntity \/ Cut \/ FinHeader \/ FinEntity \/ Reset
+SNext == SignBegin \/ Mutate \/ SkipBegin \/ PreHeader \/ PreEntity \/ Cut \/ FinHeader \/ FinEntity \/ Reset
 SSpec == SInit /\ [][SNext]_svars
 
 -----------------------------------------------------------------------------
